@@ -285,6 +285,9 @@ func C14(p *Prog, r *Run) {
 			r.Check(examined, pfx+".err", p.Pos(c.Pos()), "the error of the depth query is examined", "the error of the depth query of an output is ignored: a depth-exceeded result (the cap) is taken as the depth")
 			if ex != nil {
 				op, acc, ok := foldsAsMax(ex)
+				if !ok {
+					op, acc, ok = c14FoldOnPaths(mx, ex, &r.PathsExplored)
+				}
 				relayWhy := ""
 				if !ok {
 					// collect-then-fold: the depth is parked in the slot of this output in a local slice, and a later loop
@@ -523,6 +526,10 @@ func C14(p *Prog, r *Run) {
 					r.Bad(pfx+".fold", p.Pos(c.Pos()), "the depth returned by the recursion is not used")
 				} else {
 					op, _, ok := foldsAsMax(ex)
+					if !ok {
+						// not one compare + one branch + one merge: the same statement read off the iteration paths
+						op, _, ok = c14FoldOnPaths(depth, ex, &r.PathsExplored)
+					}
 					r.Check(ok && (op == token.GTR || op == token.GEQ), pfx+".fold", p.Pos(c.Pos()), "the result is the maximum over the incoming links",
 						fmt.Sprintf("the recursive depths are not folded as a maximum (fold found=%v op=%s)", ok, op))
 				}
